@@ -54,6 +54,12 @@ def extra_step_items(props, tier):
     return out
 
 
+def saturation_items(props):
+    """hit on an entry whose use counter is already u64::MAX (LFU/ARC/TLRU): no overflow panic, the counter stays put"""
+    return [dict(kind='step', flavour=fl, policy=pol, limit=True, ttl=False, mem=False, fw=None, n=n, op=op, hits_max=True, props=list(props))
+            for fl in FLAVOURS for pol in ('LFU', 'ARC', 'TLRU') for n in (1, 2) for op in ('get', 'insert')]
+
+
 def wrap_items(props, tier, pred=None, patterns=('same',), second=(False,)):
     from .wrap import subjects
     out = []
@@ -81,12 +87,15 @@ def inv_items(props, tier):
             out.append(dict(kind='inv', mode='group', kind2=kind, name=name, props=list(props)))
     for kind, name in [('tag', 't1'), ('tag', 't2'), ('event', 'e1'), ('dep', 'g_tag1'), ('dep', 'custom_g'), ('cache', 'g_tag1'), ('cache', 'custom_a')]:
         out.append(dict(kind='inv', mode='group', kind2=kind, name=name, repeat=True, props=list(props)))
+    for kind, name, late in [('dep', 'g_tag1', ['a_dep_tag2']), ('tag', 't1', ['g_tag1', 'a_tag1_ev1']), ('event', 'e1', ['g_ev1']), ('cache', 'custom_g', ['g_named']), ('tag', 't2', ['a_dep_tag2'])]:
+        out.append(dict(kind='inv', mode='group', kind2=kind, name=name, late=late, repeat=True, props=list(props)))
     for kind, name, unused in [('tag', 't1', ['g_tag1']), ('tag', 't1', ['a_tag1_ev1', 'g_tag12']), ('dep', 'g_tag1', ['a_dep_tag2']), ('cache', 'custom_g', ['g_named']),
                                ('event', 'e1', ['g_ev1']), ('tag', 't2', ['g_tag1', 'a_dep_tag2'])]:
         out.append(dict(kind='inv', mode='group', kind2=kind, name=name, unused=unused, props=list(props)))
     withs = [('g_tag12', ['g_tag12', 'g_tag1', 'a_nometa'], 3), ('g_tag1', ['g_tag1', 'g_nometa'], 2), ('a_nometa', ['g_tag12', 'a_nometa'], 2), ('a_tag1_ev1', ['a_tag1_ev1', 'g_ev1'], 2),
              ('custom_g', ['g_named', 'a_named'], 2), ('g_named', ['g_named', 'a_named'], 2), ('nothing_registered', ['g_tag1', 'a_nometa'], 2), ('t_tag1', ['t_tag1', 'g_tag1'], 2),
-             ('g_fifo_l2', ['g_fifo_l2'], 2), ('a_lru_l2', ['a_lru_l2'], 2), ('g_ttl60_fifo_l3', ['g_ttl60_fifo_l3'], 3), ('a_ttl60_fifo_l3', ['a_ttl60_fifo_l3'], 3)]
+             ('g_fifo_l2', ['g_fifo_l2'], 2), ('a_lru_l2', ['a_lru_l2'], 2), ('g_ttl60_fifo_l3', ['g_ttl60_fifo_l3'], 3), ('a_ttl60_fifo_l3', ['a_ttl60_fifo_l3'], 3),
+             ('a_arc_l4', ['a_arc_l4'], 4), ('g_arc_l4', ['g_arc_l4'], 4), ('a_tlru_l4', ['a_tlru_l4'], 3), ('g_lfu_l4', ['g_lfu_l4'], 3)]
     if tier == 'thorough':
         withs += [('g_tag12', ['g_tag12'], 3), ('a_arc_ttl9_l3', ['a_arc_ttl9_l3'], 3), ('g_mem1kb', ['g_mem1kb'], 3), ('a_mem1kb', ['a_mem1kb'], 3), ('m_ref', ['m_ref'], 3)]
     for name, subs, nf in withs:
@@ -110,12 +119,13 @@ def conc_items(props, tier, want=None):
                  'same|same': [[('call', ('fill', 0))], [('call', ('fill', 0))]], 'call|inv_all_with': [[('call', ('new', 0))], [('inv_all_with',)]],
                  'call|inv_cache': [[('call', ('new', 0))], [('inv_cache', it['cache_name'])]], 'call|stats_get': [[('call', ('new', 0))], [('stats_get',)]],
                  'call|stats_reset': [[('call', ('fill', 0))], [('stats_reset',)]], 'inv_with|inv_cache': [[('inv_with',)], [('inv_cache', it['cache_name'])]],
+                 'fill|inv_with': [[('call', ('fill', 0))], [('inv_with',)]], 'fill|inv_cache': [[('call', ('fill', 0))], [('inv_cache', it['cache_name'])]],
                  'fill|new': [[('call', ('fill', 0))], [('call', ('new', 0))]], 'dup|dupdup': [[('call', ('new', 0))], [('call', ('new', 0)), ('call', ('new', 0))]]}
         if it['tags']: progs['call|inv_tag'] = [[('call', ('new', 0))], [('inv_tag', it['tags'][0])]]
         for pname, pg in progs.items():
             if want and not want(pname, it): continue
             for nf in (1, 2):
-                if nf == 2 and pname in ('same|same', 'call|stats_get', 'call|stats_reset', 'inv_with|inv_cache', 'dup|dupdup') and tier == 'quick': continue
+                if nf == 2 and pname in ('same|same', 'call|stats_get', 'call|stats_reset', 'inv_with|inv_cache', 'dup|dupdup', 'fill|inv_cache') and tier == 'quick': continue
                 out.append(dict(kind='conc', subject=name, nfill=nf, progs=pg, preempt=2 if tier == 'quick' else 3, props=list(props)))
         if name in ('g_lru_l2', 'a_lru_l2', 'g_plain', 'a_plain') and (not want or want('tri-same', it)):
             out.append(dict(kind='conc', subject=name, nfill=1, progs=[[('call', ('new', 0))], [('call', ('new', 0))], [('call', ('new', 0))]], preempt=2, props=list(props), max_paths=20000))
@@ -186,12 +196,12 @@ def items_for(prop, tier):
         return step_items(['C05'], tier, ops=('insert_with_memory',)) + [dict(kind='est', case=c, n=n, props=['C05']) for c in CASES for n in ((0, 2) if c in ('Vec', 'slice') else (2,))] + wrap_items(['C05'], tier, pred=lambda r: r['group'] in ('mem', 'res', 'cif') )
     if p == 'C06': return step_items(['C06'], tier, ops=('get', 'insert'), need=lambda fl, pol, op, L, T, M, fw: T or op == 'insert')
     if p == 'C07': return step_items(['C07'], tier, policies=['FIFO', 'LRU'])
-    if p == 'C08': return step_items(['C08'], tier, policies=['LFU', 'ARC', 'TLRU'])
+    if p == 'C08': return step_items(['C08'], tier, policies=['LFU', 'ARC', 'TLRU']) + saturation_items(['C08'])
     if p == 'C15':
-        c = conc_items(['C15'], tier, want=lambda pn, it: pn in ('same|same', 'call|call'))
+        c = conc_items(['C15'], tier, want=lambda pn, it: pn in ('same|same', 'call|call', 'fill|inv_with', 'fill|inv_cache'))
         for x in c: x['atomics'] = True
         return step_items(['C15'], tier, flavours=['G', 'A'], ops=('get',)) + c + stats_items(['C15'], tier)
-    if p == 'C16': return step_items(['C16'], tier) + extra_step_items(['C16'], tier) + wrap_items(['C16'], tier, pred=lambda r: r['group'] in ('cfg', 'mem', 'res', 'cif', 'inv', 'method', 'sig')) + [x for x in inv_items(['C16'], tier) if x['mode'] != 'group' or x['name'] in ('t1', 'custom_g')]
+    if p == 'C16': return step_items(['C16'], tier) + saturation_items(['C16']) + extra_step_items(['C16'], tier) + wrap_items(['C16'], tier, pred=lambda r: r['group'] in ('cfg', 'mem', 'res', 'cif', 'inv', 'method', 'sig')) + [x for x in inv_items(['C16'], tier) if x['mode'] != 'group' or x['name'] in ('t1', 'custom_g')]
     if p == 'C09': return extra_step_items(['C09'], tier) + wrap_items(['C09'], tier, pred=lambda r: r['intended']['result'], second=(False, True))
     if p == 'C10': return wrap_items(['C10'], tier, pred=lambda r: r['intended']['cache_if'] or r['group'] in ('plain', 'res'), second=(False,))
     if p == 'C11': return wrap_items(['C11'], tier, pred=lambda r: r['intended']['invalidate_on'] or r['group'] in ('plain',), second=(False, True))
